@@ -11,6 +11,7 @@ UNIT_DEFAULT_PROPS = {
 PROPS = {
     "C13": {"units": ["U1"]},
     "C18": {"units": ["U1"]},
+    "C19": {"units": []},
 }
 
 # feature sets per unit come from units/<U>/unit.json ("feature_sets")
